@@ -224,6 +224,66 @@ impl Harness for Nested {
   }
 }
 
+/// defer: "do not create the Observable until the observer subscribes, and create a fresh
+/// Observable for each observer" - the factory counts its calls
+pub struct DeferFresh;
+
+impl Harness for DeferFresh {
+  fn name(&self) -> String {
+    "C02/defer-fresh/-/L0".into()
+  }
+  fn run(&self) -> Verdict {
+    use std::sync::Mutex;
+    let calls = Arc::new(Mutex::new(0usize));
+    let c2 = calls.clone();
+    let x = Sym::var("x", 3);
+    let x2 = x.clone();
+    let o = observables::defer(move || {
+      let k = {
+        let mut c = c2.lock().unwrap();
+        *c += 1;
+        *c
+      };
+      // the k-th Observable emits x + k
+      observables::just(x2.add(&Sym::konst(k as i64)))
+    });
+    let sig = "ops=defer(counting factory)".to_string();
+    let before = *calls.lock().unwrap();
+    if before != 0 {
+      return Verdict {
+        prop: None,
+        structural: Some(format!("the factory ran {} time(s) before anybody subscribed [{}]", before, sig)),
+        sample: String::new(),
+        signature: format!("{};role=factory-ran-early", sig),
+        nontrivial: true,
+        detail: vec![],
+      };
+    }
+    let n = 1 + sym::choose("subs", 3);
+    let mut props = vec![];
+    let mut outs = vec![];
+    for k in 1..=n {
+      let rec = Recorder::new();
+      let _s = rec.subscribe(&o);
+      let exp = RStream::done(vec![x.add(&Sym::konst(k as i64))]);
+      let (p, st) = compare(&rec.take(), &exp, &sig);
+      if let Some(m) = st {
+        return Verdict { prop: None, structural: Some(m), sample: String::new(), signature: format!("{};role=fresh-per-subscriber", sig), nontrivial: true, detail: vec![] };
+      }
+      props.push(p.unwrap());
+      outs.push(short_log(&rec.take()));
+    }
+    Verdict {
+      prop: Some(sym::t_and(props)),
+      structural: None,
+      sample: format!("{} subscribers={} got={:?}", sig, n, outs),
+      signature: format!("{};role=fresh-per-subscriber", sig),
+      nontrivial: true,
+      detail: vec![],
+    }
+  }
+}
+
 fn mk(ops: &[OpKind], max_len: usize, src_mode: usize) -> Arc<dyn Harness> {
   Arc::new(C02 { ops: ops.to_vec(), max_len, src_mode })
 }
@@ -238,6 +298,7 @@ pub fn plan(tier: Tier, seed: u64) -> Plan {
     h.push(mk(&[*k], l1, 0));
     h.push(mk(&[*k], 0, 1));
   }
+  h.push(Arc::new(DeferFresh));
   h.push(Arc::new(Nested { group_by: false, max_len: l1 }));
   h.push(Arc::new(Nested { group_by: true, max_len: l1 }));
   // depth 2: quick = a seed-selected third, thorough = all pairs
@@ -278,6 +339,9 @@ pub fn by_name(name: &str) -> Option<Arc<dyn Harness>> {
   let parts: Vec<&str> = name.split('/').collect();
   if parts.len() != 4 {
     return None;
+  }
+  if parts[1] == "defer-fresh" {
+    return Some(Arc::new(DeferFresh));
   }
   if parts[1] == "nested" {
     return Some(Arc::new(Nested { group_by: parts[2] == "group_by", max_len: parts[3].trim_start_matches('L').parse().ok()? }));
